@@ -236,7 +236,7 @@ def _run(plugin, pid, tier, seed, work, violations, known_lines, coverage, repla
     else:
         cases = load_corpus(pid) + plugin.gen(rng, tier)
     ncorpus = len(load_corpus(pid)) if replay_case is None else 0
-    results, crashed = run_harness(exe, pid, cases, getattr(plugin, "HARNESS_TIMEOUT", {}).get(tier, 1500), getattr(plugin, "HARNESS_ENV", None))
+    results, crashed = run_harness(exe, getattr(plugin, "RUNNER", pid), cases, getattr(plugin, "HARNESS_TIMEOUT", {}).get(tier, 1500), getattr(plugin, "HARNESS_ENV", None))
     terms, idxmap, errs, discarded = [], [], [], 0
     for i, (c, r) in enumerate(zip(cases, results)):
         if r is None:
@@ -319,7 +319,7 @@ def shrink(plugin, pid, exe, work, case, obs, code, sig, budget=40):
         if not cands:
             break
         rounds += 1
-        res, crashed = run_harness(exe, pid, cands, 600, getattr(plugin, "HARNESS_ENV", None))
+        res, crashed = run_harness(exe, getattr(plugin, "RUNNER", pid), cands, 600, getattr(plugin, "HARNESS_ENV", None))
         terms, idx = [], []
         for k, (c, r) in enumerate(zip(cands, res)):
             if r is None or r[1]:
